@@ -6,7 +6,8 @@ import "fmt"
 // small table sizes EVERY sequence of L operations over the alphabet
 //
 //	add 1 | add 2 | add max+1 | next status | sync(t, 0) and sync(t, 1) for every open table t |
-//	sync(unknown table, 1) | settle (sweep all tables until quiet)
+//	sync(unknown table, 1) | settle (sweep all tables until quiet) |
+//	the other forward status move (pending -> after directly, after -> normal) | sync(the table broken last, 1)
 //
 // (the alphabet depends on the state, so the enumeration is a replay-based depth-first search over
 // choice indices).  Which members a sync eliminates / releases, and which table a Go map
@@ -25,6 +26,12 @@ func (g *rgRunner) rgxOptions() []rgxOp {
 	ops = append(ops, rgxOp{"sync", 901, 1})
 	if len(g.members) > 0 {
 		ops = append(ops, rgxOp{"settle", 0, 0})
+	}
+	if g.status != "normal" {
+		ops = append(ops, rgxOp{"status2", 0, 0})
+	}
+	if n := len(g.brokenIDs); n > 0 {
+		ops = append(ops, rgxOp{"sync", g.brokenIDs[n-1], 1})
 	}
 	return ops
 }
@@ -77,6 +84,14 @@ func runRGExhaustive(dir string, L, part, parts int) {
 					default:
 						g.setStatus("after")
 					}
+				case "status2":
+					// forward moves RSys.ok allows besides pending -> normal -> after
+					if g.status == "pending" {
+						g.setStatus("after")
+					} else {
+						g.setStatus("normal")
+					}
+					o.Count("rgx.status2")
 				case "sync":
 					out := op.b
 					if m, ok := g.members[op.a]; ok && out > len(m) {
@@ -116,6 +131,6 @@ func runRGExhaustive(dir string, L, part, parts int) {
 		}
 	}
 	o.Stats["rgx.length"] = L
-	o.Sample(fmt.Sprintf("every sequence of %d regulator operations for max/min in 2/2 3/2 3/3 4/2 4/3 5/3 (part %d/%d): %d histories", L, part, parts, o.Stats["rgx.histories"]))
+	o.Sample(fmt.Sprintf("every sequence of %d regulator operations (incl. pending->after, after->normal, sync of the table broken last) for max/min in 2/2 3/2 3/3 4/2 4/3 5/3 (part %d/%d): %d histories", L, part, parts, o.Stats["rgx.histories"]))
 	o.Close(dir, "rgx", uint64(part))
 }
